@@ -483,7 +483,28 @@ _ctr = itertools.count()
 
 
 # ---------------------------------------------------------------- numpy object-level glue used by the thin wrappers
-@builtin('numpy.asanyarray', 'numpy.asarray', 'numpy.ascontiguousarray')
+@builtin('numpy.ascontiguousarray')
+def _ascontiguousarray(e, st, args, kw, n):
+    """the engine's arrays carry no stride information, so the result MAY be a copy: a fresh array with the same shape and contents
+    (reads agree; a store into the result is not a store into the argument)"""
+    a = args[0]
+    dt = kw.get('dtype', args[1] if len(args) > 1 else None)
+    if not isinstance(a, Arr) or not (dt is None or (isinstance(dt, DT) and a.dt is not None and dt.np_name == a.dt.np_name)):
+        raise Unsupported('ascontiguousarray with conversion')
+    e.note_assumed('numpy.ascontiguousarray: same shape and contents, possibly a copy (never assumed to alias its argument)')
+    r = e.new_array(st, 'contig', a.shape, a.ety, a.dt)
+    vs = [z3.Int(f'cg{k}!{next(_ctr)}') for k in range(a.ndim)]
+
+    def selall(t, idx):
+        for q in idx:
+            t = z3.Select(t, q)
+        return t
+    lhs = selall(st.heap[r.base], vs)
+    st.pc.append(z3.ForAll(vs, lhs == e.sel(st, a, vs), patterns=[lhs]))
+    return r
+
+
+@builtin('numpy.asanyarray', 'numpy.asarray')
 def _asanyarray(e, st, args, kw, n):
     a = args[0]
     dt = kw.get('dtype', args[1] if len(args) > 1 else None)
